@@ -6,63 +6,63 @@ import os
 VERIF = os.path.dirname(os.path.dirname(os.path.abspath(__file__)))
 
 CHECKS = {
-    "C08": ("three runtime monitors on real engines and real worker pools: bit-identity of stored samples across repeated seeded runs (fresh interpreters / perturbed generators), audit hook on numpy.random.seed / random.seed recording installed generator states, tagged pre-drawn rows whose consumption is logged (pid, row id) in an append-only file shared with the forked workers, the same file receiving every seeding of every process (generator state digests)",
-            "Held-on-observed: seeded single-process runs repeat bit for bit (standard and multilevel, fixed-date and jump-time); no generator state re-installed after use; every pre-drawn row consumed once across 1, 2, 4 workers and different chunkings; no generator state installed twice in any process of a run; no bit-equal fine payoffs inside a level.",
+    "C08": ("three runtime monitors on real engines and real worker pools: bit-identity of stored samples across repeated seeded runs (fresh interpreters / perturbed generators), audit hook on numpy.random.seed / random.seed recording installed generator states, tagged pre-drawn rows whose consumption is logged (pid, row id) in an append-only file shared with the forked workers, the same file receiving every seeding / state save / state restore of every process (generator state digests) and every uniform and normal variate handed out",
+            "Held-on-observed: seeded single-process runs repeat bit for bit (standard and multilevel, fixed-date and jump-time); no generator state re-installed after use; every pre-drawn row consumed once across 1, 2, 4, default workers and different chunkings; no generator state installed twice in any process of a run, none restored after pre-drawn rows that samples consume; uniform variates handed out once, normal variates of jump-time runs drawn once across processes; no bit-equal fine payoffs inside a level; every sampling method of the chain; seeded and unseeded runs; the same engine priced twice.",
             "Schedules are those the OS produced in the runs (not enumerated); time-outs are inconclusive.", "3/C08"),
-    "C20": ("monitors on the real calibration functions with pre-screened problems and deep snapshots of the input model (independent COS repricing of the rebuilt model); Parameters objects driven through generated assignment histories and compared with directly constructed models; constraint probes",
+    "C20": ("monitors on the real calibration functions with pre-screened problems (incl. maturities of days, solutions in the flat part of the objective, intervals without solution) and deep snapshots of the input model (independent COS repricing of the rebuilt model); Parameters objects driven through generated assignment histories and compared with directly constructed models; constraint probes",
             "Held-on-observed: calibrated value inside the interval, reprices the target, same model type, input untouched (generic, ATM and default calibration for HEM, Merton, VG, CGMY); rebuilt = direct model on density, integrals, exponent, drifts, cumulants after 1..8 assignments; every constrained attribute rejects invalid values and keeps the old one.",
             "Calibration problems inside the C18 box (COS accuracy).", "3/C20"),
-    "C19": ("recorded per-state rates of real chains on CTMCCredit grids vs closed forms; harness-side Levy-copula mass of the default region from a different decomposition (inclusion-exclusion of half-spaces, corner sums on quadrature tail integrals); quadrature of the CDS payoff against the default-time law",
+    "C19": ("recorded per-state rates of real chains on CTMCCredit grids vs closed forms; harness-side Levy-copula mass of the default region from a different decomposition (inclusion-exclusion of half-spaces, corner sums on quadrature tail integrals); quadrature of the CDS payoff against the default-time law; first-to-default times on simulated credit-chain paths; another model priced at the same thresholds before; oracle densities from a model built apart",
             "Held-on-observed: 1-d default rate = closed form of the truncated model = quadrature; n-d default rate = region mass in the box, closed form within the mass outside the box; theta = inclusion-exclusion, monotone; survival / spread relations; inverses; E[CDS payoff].",
             "Infinite-variation margins in dimension 2 only; copula callable trusted (C11).", "3/C19"),
     "C16": ("record-only capture of the driver path consumed by the real single and coupled SDE schemes; independent numpy Euler recursion and closed forms (constant, diagonal) as oracle; df monitors on fine meshes around every tenor",
-            "Held-on-observed: scheme = Euler recursion for Constant / DiagX / Libor / ForwardMarket coefficients with 1-d and copula drivers, both components of the coupled pair at levels 1..2, epsilon = h^BG, coarse driver drift of the level below; df(0)=1, positive, non-increasing, continuous.",
+            "Held-on-observed: scheme = Euler recursion for Constant / DiagX / Libor / ForwardMarket coefficients with 1-d and copula drivers, both components of the coupled pair at levels 1..2 (Libor model included), integer / list initial values and tenors, epsilon = h^BG, coarse driver drift of the level below; df(0)=1, positive, non-increasing, continuous.",
             "Copula drivers in dimension 2; the Libor model with independent components is refused by the library (NotImplementedError).", "3/C16"),
     "C15": ("record-only taps on the variate sources (scripted jump counts; recorded jump times, sampled states / jump sizes, normals) around the real simulators in their three modes; the path is recomputed by the harness from the recorded variates; direct calls of the two build_finer_grid closures",
-            "Held-on-observed: times 0 = t_0 < ... = T, running jump sums and running diffusion sums for 2..13 product dates, step cap incl. after the last jump and on paths without jump, original points kept, inserted points repeat the previous value, fine/coarse aligned; direct, 1-d chain, copula chain, 1-d coupling, copula coupling.",
+            "Held-on-observed: times 0 = t_0 < ... = T, running jump sums and running diffusion sums for 2..13 product dates, step cap incl. after the last jump and on paths without jump, original points kept, inserted points repeat the previous value, fine/coarse aligned, coarse component from taps on the coupling maps, every step carries a Brownian increment; direct, 1-d chain, copula chain, 1-d coupling, copula coupling.",
             "Infinite-variation copulas in dimension 2; small grids.", "3/C15"),
     "C05": ("sequential reference model fed by the event log of a scripted coupling process (unique-id samples) run through the real multilevel engine; record-only wrappers on Statistic.add (fresh row below the allocated size); payoff dimension 1..3 and 0..2 regression control variates with an independent regression as oracle",
             "Held-on-observed: Nl, stored rows, price, ml, vl, level means/variances, cl, cost, kurtosis recomputed from exactly the logged samples over adaptive histories (late levels, multi-pass) and the fixed-level variant, with and without control variates, scalar and vector payoffs.",
-            "Single process; control samples that are (nearly) degenerate at a level are skipped and counted; budget-limited runs are inconclusive.", "3/C05"),
-    "C06": ("(a) contract on the real allocation function with the bias tolerance of the stopping test observed by bisection; (b) recorded-event checker over runs of the real engine with wrapped criteria / allocation callables",
-            "Held-on-observed: sum V_l/N_l + T^2 <= rmse^2 on vectors with dynamic range 1e-12..1e6 and zeros; runs never exceed the maximum level, return only on a true criteria or at the maximum level with every level within the 1% rule.",
+            "One process or a pool of two workers; control samples that are (nearly) degenerate at a level are skipped and counted; budget-limited runs are inconclusive.", "3/C05"),
+    "C06": ("(a) contract on the real allocation function with the bias tolerance of the stopping test observed by bisection; the stopping test itself against the stated three-level rule on vectors of 1..7 level means; (b) recorded-event checker over runs of the real engine (one process or two workers) with wrapped criteria / allocation callables and a tap on MLMCStatistics.add",
+            "Held-on-observed: sum V_l/N_l + T^2 <= rmse^2 on vectors with dynamic range 1e-12..1e6 and zeros; runs never exceed the maximum level (whole number or not), return only on a true criteria (re-evaluated against the stated rule, with the configured rate) or at the maximum level with every level within the 1% rule; reported N_l = samples that reached the statistics; default-configuration histories.",
             "Termination restated as a bound on the number of samples.", "3/C06"),
-    "C07": ("the real standard engine driven by a scripted process with unique-valued logged paths; numpy re-computation as oracle (mean, unbiased error, regression control variates)",
+    "C07": ("the real standard engine driven by a scripted process with unique-valued logged paths (single process) or by a process whose workers log the simulated terminal values in an O_APPEND file (2..4 workers); numpy re-computation as oracle (mean, unbiased error, regression control variates)",
             "Held-on-observed: price, per-component error, each path used once, control-variate estimator = regression estimator, = raw mean for centred controls, variance not larger.",
-            "Single process; non-degenerate controls.", "3/C07"),
-    "C17": ("history-replay monitor: every underlying x payoff evaluated on a fresh product and on a long-lived one after generated histories (other paths, knocking paths, representation switches), in both representations; harness-side path scans and algebraic identities as oracle",
+            "Controls without sample variance or collinear in the sample are not judged (uncorrelated ones are); concentrated samples, symmetric path sets, the same engine priced again.", "3/C07"),
+    "C17": ("history-replay monitor: every underlying x payoff evaluated on a fresh product and on a long-lived one after generated histories (other paths, knocking paths, representation switches), in both representations; harness-side path scans and algebraic identities as oracle; the two path managers on coupled pairs and with barrier / parametrised control variates; products sharing their underlying and payoff objects",
             "Held-on-observed: purity, identity = log representation, parity / spread / butterfly / digital identities, knock-in + knock-out = vanilla with the barrier event scanned by the harness, averages within extremes, default times, n-th-to-default monotone, notional linearity.",
             "LookBack excluded (its process() raises by design); rate payoffs and CDS are in the purity / representation monitor only (the statement gives no identity for them).", "3/C17"),
-    "C18": ("runtime monitor of static no-arbitrage relations and cross-method agreement (COS, FFT, Black-Scholes closed form, VG vs CGMY(y=0)) on generated models of a documented box; tolerances calibrated on 3000 models with a 10x margin",
+    "C18": ("runtime monitor of static no-arbitrage relations and cross-method agreement (COS, FFT, Black-Scholes closed form, VG vs CGMY(y=0)) on generated models of a documented box; tolerances calibrated on 3000 models with a 10x margin; Merton's series of Black-Scholes prices (written in the harness) as oracle for Merton; models re-declared in another representation or with rates assigned after construction",
             "Held-on-observed: parity, bounds, monotonicity, convexity, digital range/monotonicity, density positivity and mass, cdf, scalar = vector strikes, price(product), COS = FFT = closed form.",
             "Empirical parameter box (not a proof of truncation error); strikes in the middle 40% of the COS range.", "3/C18"),
-    "C10": ("reference-oracle monitor: levy_exponent on real/imaginary arguments vs Levy-Khintchine quadrature of the declared triplet; stated cumulants vs Cauchy integrals of the exponent; recorded drift across generated sequences of representation changes; martingale identity through CF, direct-simulation drift and chain (TILDE) drift",
+    "C10": ("reference-oracle monitor: levy_exponent on real/imaginary arguments vs Levy-Khintchine quadrature of the declared triplet; stated cumulants vs Cauchy integrals of the exponent; recorded drift across generated sequences of representation changes; martingale identity through CF, direct-simulation drift and chain (TILDE) drift; the truncate -> TILDE history and the process_drift() of real Markov-chain processes",
             "Held-on-observed: all families incl. the five CGMY branches, 12 real + 6 imaginary arguments per model, cumulants 1..6, 6-step conversion sequences with return, three martingale routes.",
             "Quadrature of the density trusted (stable series for the compensated integrand); arguments with n - activity < 0.25 skipped.", "3/C10"),
     "C11": ("monitors on the real copula callables and the volume/margin operators over generated argument vectors and rectangles; oracle: harness 2^d corner sums, integration of the stated derivative against exact F-volumes, monotonicity meshes, inverse round trips",
             "Held-on-observed: grounded, d-increasing (incl. rectangles straddling 0 and infinite upper sides), identity margins for Clayton (eta in [0,1] incl. end points), independent and dependent copulas in d=2,3; Clayton conditional distribution / inverse; mixed-derivative relation (known finding).",
             "Rectangles with corners in (-inf, inf]^d except the all-infinite upper corner; scipy nquad trusted.", "3/C11"),
-    "C12": ("monitors on LevyCopulaModel.mass (fast paths), _mass_nd, tail integrals and their inverse over generated rectangles interleaved over several instances; oracle: corner-sum definition on quadrature tail integrals, additivity, marginal quadrature",
+    "C12": ("monitors on LevyCopulaModel.mass (fast paths), _mass_nd, tail integrals and their inverse over generated rectangles interleaved over several instances; oracle: corner-sum definition on quadrature tail integrals, additivity, marginal quadrature, adaptive integration of the implied joint density; zero end points written -0.0, integer end points, copula changed on a used model",
             "Held-on-observed: non-negativity, fast = general = definition for every sign pattern, additivity under random splits incl. at 0, whole-line = margin, index subsets = I-margins, inverse tail integral round trips, instance-history independence.",
             "Copula callable trusted (C11); absolute floor 1e-14 x marginal mass for closed-form rounding.", "3/C12"),
-    "C03": ("exact measurement of the coupling kernel as a function of the scripted coupling uniform after real next_level() calls; conservation / locality checker against independent cell masses of both grids; recorded previous-level drift and diffusion; replay of a logged coupled simulation through the measured kernel",
+    "C03": ("exact measurement of the coupling kernel as a function of the scripted coupling uniform after real next_level() calls; conservation / locality checker against independent cell masses of both grids; recorded previous-level drift and diffusion; replay of a logged coupled simulation through the measured kernel; the SDE coupling (constant coefficient and Libor model) against chains / Euler schemes built apart",
             "Held-on-observed: rate conservation for every coarse state, locality of every increment, coarse drift/diffusion of level l-1, shared Brownian increments, coarse path = image of the fine path; 1-d (all methods, 3 simulation modes, levels 1..3) and 2-d/3-d copulas.",
             "Cell masses from quadrature / corner sums; chains with intensity >= 1e-9; infinite-variation copulas in dimension 2 only.", "3/C03"),
-    "C04": ("reference-oracle monitor on the initialised chain: process_drift + recorded/measured rates vs quadrature mean of the truncated process in the declared representation; diffusion and variance-gap monitors",
+    "C04": ("reference-oracle monitor on the initialised chain: process_drift + recorded/measured rates vs quadrature mean of the truncated process in the declared representation; diffusion and variance-gap monitors; the diffusion coefficient carried by simulated jump-time paths (from recorded normals)",
             "Held-on-observed: all representations (native, ZERO, CENTER, ONEONE, TILDE) x families x grids x levels x methods; copula margins with a-priori slack.",
             "Truncated process = drift fixed in the declared representation, nu restricted to the grid bounds; central-cell oracle on uniform grids; tolerance of the small-jump moments = the accuracy the code requests from its own quadrature.", "3/C04"),
-    "C02": ("exact black-box measurement of the map uniform -> state of every sampler (recursive bisection to one ulp; integer bisection over the 2^32 words for the table method), scripted variate sources for the batch call, replay of the same uniforms under 4 orders / fresh samplers",
+    "C02": ("exact black-box measurement of the map uniform -> state of every sampler (recursive bisection to one ulp; integer bisection over the 2^32 words for the table method), scripted variate sources for the batch call, replay of the same uniforms under 4 orders / fresh samplers / deep and dill copies of a used sampler",
             "Held-on-observed: pre-image lengths vs target vector (raw) or independent quadrature cell masses (chains) for all 7 sampler classes incl. n-d; exact never-origin / never-outside / never-zero-probability monitors; batch == single-uniform; history independence.",
             "Assumes no hidden piece between equal neighbours below the probe spacing; a set of uniforms of measure <= 1e-12 next to 1 is exempt.", "3/C02"),
-    "C01": ("record-only hooks on the sampling factory + exact black-box law measurement of on-the-fly samplers; oracle: quadrature of the model density on harness-recomputed cells, corner-sum Levy-copula mass on quadrature tail integrals",
+    "C01": ("record-only hooks on the sampling factory + exact black-box law measurement of on-the-fly samplers; oracle: quadrature of the model density on harness-recomputed cells, corner-sum Levy-copula mass on quadrature tail integrals; second model on the same grid, chain rebuilt after refining in place, model object used by an earlier chain, measure already restricted",
             "Held-on-observed: every state rate handed to / realised by every accepted sampling method compared with an independent mass, on all grid constructors, levels 0..5, 1-d families and 2-d/3-d copulas; tiling and intensity monitors.",
             "Trusts scipy quad and the copula callable (C11); copulas with infinite-variation margins in dimension 2 only.", "3/C01"),
-    "C13": ("icontract post-conditions on CTMCGrid.__init__ and CTMCGrid.refine attached from the harness (class invariant + OLD-snapshot nesting contract), quadrature oracle for promised probabilities",
-            "Held-on-observed: contracts evaluated on every grid built and refined by all 6 constructors, d=1..3, 0..6 refinements.",
-            "Domain: >=2 states per half-axis, l<a<-h, two-sided measures for probability-step grids.", "3/C13"),
+    "C13": ("icontract post-conditions on CTMCGrid.__init__ and on every refine() of the class tree attached from the harness (class invariant + OLD-snapshot nesting contract), quadrature oracle for promised probabilities",
+            "Held-on-observed: contracts evaluated on every grid built and refined by all 6 constructors and on hand-built per-axis grids, d=1..3, 0..8 refinements; a refine() without post-condition evaluation is inconclusive.",
+            "Domain: credit thresholds l<a<-h (on the bounds: refused or well-formed), spatial steps up to the size of the bounds (well-formed or refused), two-sided measures for probability-step grids.", "3/C13"),
     # id: (technique, level text, level note, design ref)
     "C09": ("runtime monitor of every Levy-measure integral vs independent quadrature of the model's own density "
-            "(reference-oracle monitor over generated intervals; library quad calls counted by a hook)",
+            "(reference-oracle monitor over generated intervals; library quad calls counted by a hook; successive truncations; activity indices next to 1)",
             "Held-on-observed: every public integral of every measure/truncated wrapper is executed on generated intervals of "
             "all classes and compared with quadrature of the density, plus additivity and sign monitors; exploration only.",
             "Trusts scipy quad (with its error estimate in the tolerance), the parameter boxes of DESIGN section 3.", "3/C09"),
